@@ -1,6 +1,7 @@
 import BqVerif.Proofs.RouteWorkflow
 import BqVerif.Proofs.RouteSem
 import BqVerif.Proofs.RouteSemTrace
+import BqVerif.Proofs.RouteSemInst
 /-!
 # C09 — placement, layout and routing preserve the program and respect the coupling
 
@@ -290,6 +291,15 @@ theorem C09_route_denotation {M : Type} (S : Sem M) (free : Nat → Bool) (g : G
   have hnov : ∀ e ∈ s.out, noVswap e = true := sabre_no_vswap free g moves hsab hrun
   rw [allOps_eq_physOps S.swapOp s.out hnov, hden] at hsound
   exact ⟨hsound, hsnd.symm⟩
+
+/-- The laws of `Sem` are satisfiable by a non-trivial model (S6(i), the *classical* instance:
+operations as transformers of wire valuations, the swap gate exchanging two wires, gates that
+act on their own wires only and do not commute when they share a wire), so the denotational
+theorems above are not vacuous. -/
+theorem C09_sem_inhabited : ∃ S : Sem ((Nat → Nat) → (Nat → Nat)),
+    (∀ a b σ, S.sem (S.swapOp a b) σ = fun w => σ (swapFn a b w)) ∧
+    ∃ a b : Op, S.mul (S.sem a) (S.sem b) ≠ S.mul (S.sem b) (S.sem a) :=
+  ⟨classicalSem, classicalSem_swap, classicalSem_noncomm⟩
 
 /-! ## 8. PAM -/
 
